@@ -150,6 +150,32 @@ func checkAPI(c APICase) error {
 	if e := judge("Blocks()", bt, err); e != nil {
 		return e
 	}
+	ro, err := tabula.Open(path).ReadingOrder()
+	var rf, rl []string
+	if ro != nil {
+		for _, f := range ro.Fragments {
+			rf = append(rf, f.Text)
+		}
+		for _, l := range ro.Lines {
+			rl = append(rl, l.Text)
+		}
+	}
+	if e := judge("ReadingOrder().Fragments", rf, err); e != nil {
+		return e
+	}
+	if e := judge("ReadingOrder().Lines", rl, err); e != nil {
+		return e
+	}
+	an, err := tabula.Open(path).Analyze()
+	var at []string
+	if an != nil {
+		for _, el := range an.Elements {
+			at = append(at, el.Text)
+		}
+	}
+	if e := judge("Analyze().Elements", at, err); e != nil {
+		return e
+	}
 	els, err := tabula.Open(path).Elements()
 	var et []string
 	for _, el := range els {
